@@ -32,8 +32,8 @@
      exact radicands, the triangle inequality in its square-root-free form). *)
 From Coq Require Import ZArith List Bool Relations.
 From Coq Require Import Reals.
-From DV Require Import Model.PyPrims Model.Tree Model.C04Model Model.C04Spec Proofs.C04Core Proofs.C04Witness
-  Proofs.C04Full Proofs.C04Real.
+From DV Require Import Model.PyPrims Model.Tree Model.C04Model Model.C04Spec Model.C04Prims Gen.TreeCompare Proofs.C04Core
+  Proofs.C04Witness Proofs.C04Full Proofs.C04Real Proofs.C04Gen.
 Import ListNotations.
 Open Scope Z_scope.
 
@@ -347,3 +347,60 @@ Theorem encode_is_splits : forall mg w a st,
   fst (step mg Current w (OpEncode a)) = OMasks (splits mg (w_acc w) (ts_struct st)).
 Proof. exact F_encode_is_splits. Qed.
 Print Assumptions encode_is_splits.
+
+(* ---- translator tie ----
+   Gen/TreeCompare.v is regenerated on every run from the AST of src/dendropy/calculate/treecompare.py
+   (py/dv/gen_treecompare.py), statement by statement, over the primitives of Model/C04Prims.v.
+   Each generated function computes exactly what the hand-written model computes: same value, same
+   exception, same world afterwards.  The model is instantiated at the policy the source has now
+   (ZeroBoth, i.e. after /repo 869e13ed); edge_weight_attr = "length", value_type = float.
+   bmaps_ok (a cached bipartition_edge_map has no key twice) is an invariant of every world a case can
+   reach (generated_invariant): Python dicts cannot violate it, association lists can.
+   Hence every theorem above about do_* / fpfn / rf / wrf / euclid_sq holds of the generated code. *)
+
+Theorem generated_false_positives_and_negatives : forall mg a b upd w,
+  g_false_positives_and_negatives mg a b upd w = do_fpfn mg w a b upd.
+Proof. exact gen_false_positives_and_negatives. Qed.
+Print Assumptions generated_false_positives_and_negatives.
+
+Theorem generated_symmetric_difference : forall mg a b upd w,
+  g_symmetric_difference mg a b upd w = do_symdiff mg w a b upd /\
+  g_unweighted_robinson_foulds_distance mg a b upd w = do_symdiff mg w a b upd.
+Proof. intros. split; [apply gen_symmetric_difference | apply gen_unweighted_robinson_foulds_distance]. Qed.
+Print Assumptions generated_symmetric_difference.
+
+Theorem generated_find_missing_bipartitions : forall mg a b upd w,
+  g_find_missing_bipartitions mg a b upd w = do_missing mg w a b upd.
+Proof. exact gen_find_missing_bipartitions. Qed.
+Print Assumptions generated_find_missing_bipartitions.
+
+Theorem generated_get_length_diffs : forall mg a b upd w,
+  bmaps_ok w ->
+  g__get_length_diffs mg a b AttrLength CtorFloat upd w = do_length_diffs mg ZeroBoth w a b upd.
+Proof. exact gen__get_length_diffs. Qed.
+Print Assumptions generated_get_length_diffs.
+
+Theorem generated_bipartition_difference : forall mg a b (f : list (Z * Z) -> Z) upd w,
+  bmaps_ok w ->
+  g__bipartition_difference mg a b f AttrLength CtorFloat upd w
+  = wbind (do_length_diffs mg ZeroBoth w a b upd) (fun l w1 => (Ok (f l), w1)).
+Proof. exact gen__bipartition_difference. Qed.
+Print Assumptions generated_bipartition_difference.
+
+Theorem generated_weighted_robinson_foulds_distance : forall mg a b upd w,
+  bmaps_ok w ->
+  g_weighted_robinson_foulds_distance mg a b AttrLength upd w = do_wrf mg ZeroBoth w a b upd /\
+  g_robinson_foulds_distance mg a b AttrLength w = do_wrf mg ZeroBoth w a b false.
+Proof. intros. split; [apply gen_weighted_robinson_foulds_distance | apply gen_robinson_foulds_distance]; assumption. Qed.
+Print Assumptions generated_weighted_robinson_foulds_distance.
+
+Theorem generated_euclidean_distance : forall mg a b upd w,
+  bmaps_ok w ->
+  g_euclidean_distance mg a b AttrLength CtorFloat upd w = do_euclid_sq mg ZeroBoth w a b upd.
+Proof. exact gen_euclidean_distance. Qed.
+Print Assumptions generated_euclidean_distance.
+
+Theorem generated_invariant : forall mg p c w o,
+  bmaps_ok (init_world c) /\ (bmaps_ok w -> bmaps_ok (snd (step mg p w o))).
+Proof. intros. split; [apply bmaps_ok_init | apply bmaps_ok_step]. Qed.
+Print Assumptions generated_invariant.
